@@ -504,8 +504,16 @@ pub fn run(ctx: &mut Ctx) {
         let mut exp = Vec::new();
         let mut parts = Vec::new();
         for _ in 0..k {
-            let ct = *r.pick(&[0x14u8, 0x15, 0x16, 0x16]);
-            let msgs = gen::dtls_msg_list(r, gen::TINY, ct);
+            let big = r.chance(1, 8);
+            let ct = if big { 0x16 } else { *r.pick(&[0x14u8, 0x15, 0x16, 0x16]) };
+            // now and then a record of 2^14 .. 2^14+256 bytes (one handshake fragment) at any position
+            let msgs = if big {
+                let pl = *r.pick(&[16384usize, 16385, 16500, 16639, 16640]);
+                let data = r.bytes(pl - 12);
+                vec![ADtlsMsg::Hs(ADtlsHs { length: 0x01_0000, message_seq: r.u16(), fragment_offset: r.below(100) as u32, body: ADtlsBody::Fragment { ty: 11, data } })]
+            } else {
+                gen::dtls_msg_list(r, gen::TINY, ct)
+            };
             let mut w = W::new();
             for m in &msgs {
                 m.enc(&mut w);
